@@ -235,7 +235,7 @@ def _gate_in_domain(g):
     if not isinstance(g, (G.MatrixFactoryGate, G.ControlledGate, G.Dagger, G.Power, G.Exponential)):
         return False
     try:
-        return g.num_qubits <= 5 and not g.free_symbols
+        return g.num_qubits <= 5 and not g.free_symbols and not GC.has_numpy_params(g)
     except Exception:
         return False
 
